@@ -1,0 +1,24 @@
+// Copyright 2026 The OWASP Coraza contributors
+// SPDX-License-Identifier: Apache-2.0
+
+//go:build verif
+
+package seclang
+
+// VerifParseActions runs the action-list scanner and returns (key, value, type) per action.
+func VerifParseActions(actions string) ([][3]string, error) {
+	act, err := parseActions(nil, actions)
+	if err != nil {
+		return nil, err
+	}
+	out := make([][3]string, 0, len(act))
+	for _, a := range act {
+		out = append(out, [3]string{a.Key, a.Value, string(rune('0' + int(a.Atype)))})
+	}
+	return out, nil
+}
+
+// VerifParseActionOperator splits the argument of SecRule into targets, operator and actions.
+func VerifParseActionOperator(data string) (vars string, op string, actions string, err error) {
+	return parseActionOperator(data)
+}
